@@ -20,10 +20,13 @@ def analyse(patch, workroot, must_compile=False):
         facts = os.path.join(w, 'facts', 'mrecordlog.facts.json')
         if p.returncode != 0 or not os.path.exists(facts):
             return {'status': 'build-failed', 'log': (p.stdout + p.stderr)[-2000:]}
-        q = subprocess.run([sys.executable, os.path.join(VERIF, 'checker', 'runall.py'), facts], capture_output=True, text=True)
+        env = dict(os.environ)
+        if os.path.exists(os.path.join(w, 'PRE_FIX4')):
+            env['MRL_PRE_FIX4'] = '1'       # patch applied to the tree before the fourth repair: GC13 is that tree's known finding
+        q = subprocess.run([sys.executable, os.path.join(VERIF, 'checker', 'runall.py'), facts], capture_output=True, text=True, env=env)
         if q.returncode != 0:
             return {'status': 'engine-failed', 'log': (q.stdout + q.stderr)[-2000:]}
-        return dict(json.loads(q.stdout), status='analysed')
+        return dict(json.loads(q.stdout), status='analysed', pre_fix4=os.path.exists(os.path.join(w, 'PRE_FIX4')))
     finally:
         shutil.rmtree(w, ignore_errors=True)
 
